@@ -198,6 +198,8 @@ def apply_edits(item, edits, twin_false=False):
             item.enum_eq(at["prefix"], int(at.get("count", "1")), at.get("why", ""), at.get("call"))
         elif k == "drop-attrs":
             item.drop_attrs(at.get("why", ""))
+        elif k == "closure-annotate":
+            item.closure_annotate(at["anchor"], int(at.get("nth", "1")), e["a"], e["b"], at.get("why", ""))
         elif k == "rename":
             item.rename_ident(at["from"], at["to"], at.get("why", ""))
         elif k == "desugar-for":
